@@ -180,7 +180,8 @@ def run_check(prop, tier="quick", base_seed=0, runs=None, workers=None, wall=Non
                 classes.setdefault(v["violation"]["check"], v)
             todo = list(classes.values())[: int(os.environ.get("GTSIM_MAXCLASSES", "6"))]
             mins = list(ex.map(worker_minimise, [(prop, v, 90 if tier == "quick" else 240) for v in todo]))
-            os.makedirs(os.path.join(rt.VERIF, "replays"), exist_ok=True)
+            rdir = os.environ.get("GTSIM_REPLAY_DIR", os.path.join(rt.VERIF, "replays"))
+            os.makedirs(rdir, exist_ok=True)
             for v, m in zip(todo, mins):
                 rec = m or v
                 if m is not None and m is not v:
@@ -192,7 +193,7 @@ def run_check(prop, tier="quick", base_seed=0, runs=None, workers=None, wall=Non
                         return a_ is not None and a_["check"] == r_["violation"]["check"]
                     if not _rep(m, None) and not (m.get("prior_seeds_in_worker") and _rep(m, True)):
                         rec = v
-                path = os.path.join(rt.VERIF, "replays", f"{prop}-{rec['seed']}-{rec['violation']['check'].replace('/', '_')}.json")
+                path = os.path.join(rdir, f"{prop}-{rec['seed']}-{rec['violation']['check'].replace('/', '_')}.json")
                 with open(path, "w") as fh:
                     fh.write(util.dumps(rec, indent=1))
                 again = fresh_replay(prop, json.load(open(path)))
@@ -326,6 +327,7 @@ class Agg:
             "coverage": cov, "assumptions": ASSUMPTIONS.get(self.prop, []), "wall_s": round(wall, 2),
             "violations": int(self.violations),
         }
-        os.makedirs(os.path.join(rt.VERIF, "evidence"), exist_ok=True)
-        with open(os.path.join(rt.VERIF, "evidence", f"{self.prop}.json"), "w") as fh:
+        edir = os.environ.get("GTSIM_EVIDENCE_DIR", os.path.join(rt.VERIF, "evidence"))  # experiments only
+        os.makedirs(edir, exist_ok=True)
+        with open(os.path.join(edir, f"{self.prop}.json"), "w") as fh:
             json.dump(ev, fh, indent=1, sort_keys=True)
